@@ -128,7 +128,12 @@ func (td TypeDeclaration) objectHoverAtPos(ctx context.Context, funcExpr *hclsyn
 				return nil
 			}
 
-			typ, _ := typeexpr.TypeConstraint(item.ValueExpr)
+			valueExpr := item.ValueExpr
+			if fc, ok := valueExpr.(*hclsyntax.FunctionCallExpr); ok && fc.Name == "optional" && len(fc.Args) > 0 {
+				// the type of an optional attribute is the first argument
+				valueExpr = fc.Args[0]
+			}
+			typ, _ := typeexpr.TypeConstraint(valueExpr)
 			return &lang.HoverData{
 				Content: lang.Markdown(fmt.Sprintf("`%s` = _%s_", rawKey, typ.FriendlyNameForConstraint())),
 				Range:   hcl.RangeBetween(item.KeyExpr.Range(), item.ValueExpr.Range()),
